@@ -28,10 +28,11 @@ deriving Repr, DecidableEq
 def mkTran (ty to : Nat) (fs : List Field) : Out := ⟨to, false, ty, 0, 0, fs⟩
 /-- `cc.NewReply(t, fields…)`. -/
 def mkReply (c : Client) (req : Nat) (fs : List Field) : Out := ⟨c.id, true, 0, 0, req, fs⟩
-/-- `cc.NewErrReply(t, msg)`. -/
-def mkErr (c : Client) (req : Nat) (msg : String) : Out := ⟨c.id, true, 0, 1, req, [⟨100, msg.toUTF8.toList⟩]⟩
+/-- An ASCII string literal as bytes. -/
+def str (s : String) : Bytes := s.toList.map (fun c => UInt8.ofNat c.toNat)
 
-def str (s : String) : Bytes := s.toUTF8.toList
+/-- `cc.NewErrReply(t, msg)`. -/
+def mkErr (c : Client) (req : Nat) (msg : String) : Out := ⟨c.id, true, 0, 1, req, [⟨100, str msg⟩]⟩
 
 /-- `LimitChatMsg`. -/
 def limitChatMsg : Nat := 8192
@@ -973,5 +974,42 @@ theorem ChatWorld.after_fresh (es : List ChatEv) (w : ChatWorld) (hw : w.Inv) (h
     have hs := ChatWorld.step_fresh hf hw e (by omega)
     have h2 := hs.2
     exact ih (w.step e).1 (ChatWorld.step_inv hw e) hs.1 (by omega)
+
+end Mobius
+
+namespace Mobius
+
+-- ------------------------------------------------------------------ replies
+
+/-- At most one reply-flagged transaction, addressed to the requester with the request's id. -/
+def ReplyOK (actor req : Nat) (outs : List Out) : Prop :=
+  (outs.filter (·.isReply)).length ≤ 1 ∧ ∀ o ∈ outs, o.isReply = true → o.to = actor ∧ o.reqId = req
+
+theorem filter_isReply_nil {l : List Out} (h : ∀ o ∈ l, o.isReply = false) : l.filter (·.isReply) = [] := by
+  apply List.filter_eq_nil_iff.mpr
+  intro o ho; simp [h o ho]
+
+theorem ReplyOK.nonreplies {a r : Nat} {l : List Out} (h : ∀ o ∈ l, o.isReply = false) : ReplyOK a r l := by
+  refine ⟨by rw [filter_isReply_nil h]; simp, ?_⟩
+  intro o ho hr; rw [h o ho] at hr; cases hr
+
+theorem ReplyOK.append_reply {a r : Nat} {l : List Out} {rep : Out} (h : ∀ o ∈ l, o.isReply = false)
+    (h2 : rep.to = a) (h3 : rep.reqId = r) : ReplyOK a r (l ++ [rep]) := by
+  refine ⟨?_, ?_⟩
+  · rw [List.filter_append, filter_isReply_nil h]
+    simp only [List.nil_append]
+    exact Nat.le_trans (List.length_filter_le _ _) (by simp)
+  · intro o ho hr
+    rcases List.mem_append.mp ho with ho | ho
+    · rw [h o ho] at hr; cases hr
+    · simp only [List.mem_singleton] at ho; subst ho; exact ⟨h2, h3⟩
+
+theorem ReplyOK.nil {a r : Nat} : ReplyOK a r [] := ReplyOK.nonreplies (by intro o h; cases h)
+
+theorem isReply_map_mkTran {α : Type} (l : List α) (f : α → Nat × Nat × List Field) :
+    ∀ o ∈ l.map (fun x => mkTran (f x).1 (f x).2.1 (f x).2.2), o.isReply = false := by
+  intro o ho
+  obtain ⟨x, _, rfl⟩ := List.mem_map.mp ho
+  rfl
 
 end Mobius
